@@ -412,14 +412,16 @@ func c19CoreFun(name string) c19Fun {
 // registration and case layout
 
 type c19Layout struct {
-	nReg, nUser, nShadow, nRedef, nPos int
+	nReg, nUser, nShadow, nRedef, nPos, nMove int
 }
 
 func c19GetLayout() c19Layout {
-	return c19Layout{nReg: len(c19Registry()), nUser: len(c19UserSigs()), nShadow: len(c19ShadowCases()), nRedef: len(c19RedefCases()), nPos: c19PositionCaseCount()}
+	return c19Layout{nReg: len(c19Registry()), nUser: len(c19UserSigs()), nShadow: len(c19ShadowCases()), nRedef: len(c19RedefCases()), nPos: c19PositionCaseCount(), nMove: len(c19MoveCases())}
 }
 
-func (l c19Layout) enumerated() int { return l.nReg + l.nUser + l.nShadow + l.nRedef + l.nPos }
+func (l c19Layout) enumerated() int {
+	return l.nReg + l.nUser + l.nShadow + l.nRedef + l.nPos + l.nMove
+}
 
 func c19RandomCases(tier string) int {
 	if tier == "thorough" {
@@ -436,8 +438,9 @@ func init() {
 			fmt.Sprintf("(3) shadowing contexts: %d context shapes x %d builtin names x up to %d shadow values x k = 0..%d", len(c19Shapes), len(c19Targets), len(c19Shadows), c19ShadowMaxK) + ", the binding reached decided by evaluating (probe in the shadow body, function id on the error's call stack) and a control run that replaces the target call by a probe; " +
 			fmt.Sprintf("(4) one name defined more than once: %d placements of the call (after / between the definitions, in a function defined before / between / after them and invoked between / after them, the definitions in one package or in two) x %d definer pairs (defun/defmacro) x every ordered pair of %d different formals lists x k = 0..%d, the definition in force at the call decided by evaluating (a control run records what the name is bound to at the call's position; each definition body has its own probe). ", len(c19RedefPlaces), len(c19RedefDefiners), len(c19RedefFormals), c19RedefMaxK) +
 			fmt.Sprintf("(5) syntactic positions: %d places a call can be written in (body / initialisers / local function bodies of let, let*, flet, labels, macrolet in the paren and the bracket spelling of the binding entries, bracket-spelled formals, cond clauses, dotimes count/result/body, handler-bind handler expressions and bodies, lambda/defun/defmacro bodies, threading-macro operands, assignment values, unquoted parts and expansions of templates) x %d callees (core functions of arity 0/1/2, special operators, a macro, a defun) x k = 0..named+1, a control run deciding how often the place is evaluated; %d data positions (observed only) and %d call-shaped places that are not calls (binding entries, formals lists, threading steps: judged where docs/lint-checks.md documents the exclusion). ", len(c19Positions()), len(c19PosCalleeNames)+1, len(c19DataPositions), len(c19NonCalls)) +
+			fmt.Sprintf("(6) package movement between a global shadowing definition and the call: %d global rebinding kinds (defun, defmacro, set) x the %d builtin names x %d shadow values x %d movements (the defining package declared again, an excursion to another package and back, (in-package 'user) while in user, a nested load-string that enters and leaves packages, export of the name, use-package of a package exporting the same name / other names, the name used from another package, the call in a function of the defining package invoked after the movement or from another package) x k = 0..%d, judged like (3); a finding the plain definition-then-call program shows too keeps the plain shape's key. ", len(c19GlobalKinds), len(c19Targets), len(c19MoveShadowsFor(c19GlobalKinds[len(c19GlobalKinds)-1])), len(c19Moves), c19ShadowMaxK) +
 			"Each source is linted in the three configurations `elps lint` has (no workspace; --workspace with the file inside; --workspace reading stdin) and evaluated in a fresh runtime. " +
-			"SAMPLED part: the same five families under random neutral wrappers (incl. bracket-spelled ones), the bracket spelling of the shadowing shapes' binding entries, argument expressions, names, line/column placement (and a third definition). " +
+			"SAMPLED part: the same six families under random neutral wrappers (incl. bracket-spelled ones), the bracket spelling of the shadowing shapes' binding entries, argument expressions, names, line/column placement (and a third definition). " +
 			"A cover key is (family, kind|signature class|shape, lint mode outcome, run-time outcome class, relation of k to the accepted range).",
 		Assumptions: []string{
 			"run-time binding failure of a call = the evaluation returns an error whose own source location is the call, whose message is one of the messages produced by (*LEnv).bind/bindFormalNext, and whose call-stack top is the callee (function id compared with the registry's); errors raised later by a builtin body or by a macro's expansion do not count",
@@ -479,8 +482,10 @@ func c19Run(w *fw.W, idx int) {
 		}
 	case idx < l.nReg+l.nUser+l.nShadow+l.nRedef:
 		c19RunRedefCase(w, c19RedefCases()[idx-l.nReg-l.nUser-l.nShadow])
-	case idx < l.enumerated():
+	case idx < l.nReg+l.nUser+l.nShadow+l.nRedef+l.nPos:
 		c19RunPositionCase(w, idx-l.nReg-l.nUser-l.nShadow-l.nRedef)
+	case idx < l.enumerated():
+		c19RunMoveCase(w, c19MoveCases()[idx-l.nReg-l.nUser-l.nShadow-l.nRedef-l.nPos])
 	default:
 		c19RunRandom(w, idx)
 	}
@@ -528,6 +533,10 @@ func c19Driver(d *fw.D) {
 	check("shadow_cases_enumerated", len(c19ShadowCases()))
 	check("redefined_cases_enumerated", len(c19RedefCases()))
 	check("position_cases_enumerated", c19PositionCaseCount())
+	check("pkgmove_cases_enumerated", len(c19MoveCases()))
+	if got := len(d.Sets["package_movements"]); got != len(c19Moves) {
+		d.Inconclusive(fmt.Sprintf("%d of %d package movements were run", got, len(c19Moves)))
+	}
 	// every position template must have been found evaluated exactly once by its
 	// control run (otherwise a harness-template:* violation was recorded as well)
 	if got := len(d.Sets["positions_evaluated_once"]); got != len(c19Positions()) {
